@@ -218,10 +218,10 @@ func c13ConfirmReverse(c *Cfg, o *c13Oracle, cases []*c13Case) {
 			case "recursive-ref":
 				ok = false // inlining is attempt (b)
 			case "contains-standalone-differs":
-				ok = hasKw(cs.schema, "contains")
+				ok = false // the contains rewrite needs its mechanism probe; not used here
 			}
-			if !ok {
-				continue
+			if !ok || x.class == "matchIf-eager-bottom" && len(applied) > 0 && applied[len(applied)-1].class == "matchIf-eager-bottom" {
+				continue // (only the double-negation form of the if/then/else transformation)
 			}
 			s2, j2 := x.fn(cs.schema, cs.insts[fail[0]])
 			if !sameJV(s2, cs.schema) || !sameJV(j2, cs.insts[fail[0]]) || (x.class == "allOf-member-without-constraints" && !sameJV(nestAllOf(cs.schema), cs.schema)) {
